@@ -199,7 +199,7 @@ def unmanaged_guard(repo: Repo, rep):
         "dominates every yield",
     )
     sites = emission_sites(repo)
-    rep.floor("R-UNMANAGED-GUARD", "Change emission sites", len(sites), 19)
+    rep.floor("R-UNMANAGED-GUARD", "Change emission sites", len(sites), 14)
     n_rep = 0
     for s in sites:
         if s.kind != "Replace":
